@@ -5,6 +5,7 @@ package main
 
 import (
 	"bufio"
+	"context"
 	"bytes"
 	"crypto/sha256"
 	"encoding/hex"
@@ -321,7 +322,19 @@ func runParent(id, tier string, seed uint64, replay string) int {
 			if replay != "" {
 				args = append(args, "--replay", replay)
 			}
-			cmd := exec.Command(self, args...)
+			// generous wall-clock watchdog: its firing is INCONCLUSIVE, never a verdict
+			limit := 20 * time.Minute
+			if tier == "thorough" {
+				limit = 90 * time.Minute
+			}
+			if v := os.Getenv("VERIF_SHARD_TIMEOUT_S"); v != "" {
+				if n, err := strconv.Atoi(v); err == nil && n > 0 {
+					limit = time.Duration(n) * time.Second
+				}
+			}
+			wctx, cancel := context.WithTimeout(context.Background(), limit)
+			defer cancel()
+			cmd := exec.CommandContext(wctx, self, args...)
 			var eb bytes.Buffer
 			cmd.Stderr = &eb
 			cmd.Stdout = &eb
@@ -512,7 +525,7 @@ func runParent(id, tier string, seed uint64, replay string) int {
 				cov["set_"+name] = xs
 			}
 		}
-		if cov["samples"] == nil {
+		if len(merged.Samples) == 0 {
 			cov["samples"] = []any{}
 		}
 		ev := map[string]any{
